@@ -75,8 +75,15 @@ class Renderer(object):
         return text, spec, l1, l2
 
 
-def observe_row(rid, entry, text, spec, l1, fl=0):
-    obs, _ = observe.outcome(entry, text, language=l1)
+def observe_row(rid, entry, text, spec, l1, fl=0, first=None):
+    """first = (entry, text) of a parse that the SAME Parser object has to go through before (its outcome is ignored)"""
+    if first is None:
+        obs, _ = observe.outcome(entry, text, language=l1)
+    else:
+        from behave.parser import Parser
+        parser = Parser(l1)
+        observe.outcome(first[0], first[1], parser=parser)
+        obs, _ = observe.outcome(entry, text, parser=parser)
     obs = dict(obs)
     at = obs.pop("at")
     return {"id": rid, "entry": entry, "lines": spec, "nl": len(text.splitlines()), "obs": obs, "fl": fl}, at
@@ -136,21 +143,44 @@ def sig_of(v, row, at):
     return "%s|entry=%s" % (clause, row["entry"])
 
 
+def reuse_pairs(cases, by_code, rnd, n):
+    """(first, second) sequences for two parses on one Parser object: the first one preferably ends inside a table /
+    doc-string / with pending tags or with an error, the second one is any sequence"""
+    ok = [c for c in cases if c["e"] in ("feature", "steps", "scenario", "rule") and "L" not in c["s"] and c["s"]]
+    hot = [c for c in ok if c["k"] == "error" or c["s"][-1] in ("T1", "T2", "Tb", "D", "Q", "@", "E", "t")]
+    seconds = [c for c in ok if c["e"] in ("feature", "steps")]
+    # aborted in the middle of a table / doc-string: the parser holds a pending table / pending lines
+    pending = [c for c in ok if c["k"] == "error" and c["why"] in ("Malformed table", "BAD-INDENT in multiline text")] or hot
+    out = []
+    for _ in range(n):
+        r = rnd.random()
+        a = rnd.choice(pending if r < 0.4 else (hot if r < 0.85 else ok))
+        b = rnd.choice(seconds if rnd.random() < 0.8 else ok)
+        out.append(((a["e"], [by_code[x] for x in a["s"]]), (b["e"], [by_code[x] for x in b["s"]])))
+    return out
+
+
 _STATE = {}
 
 
 def _job(job):
     """render + observe one abstract line sequence (runs in a worker process; seeded per row)"""
-    rid, kind, entry, lines, fl, seed, pool = job
+    rid, kind, entry, lines, fl, seed, pool = job[:7]
+    first = job[7] if len(job) > 7 else None
     rr = _STATE.get("rr")
     if rr is None or _STATE.get("pool") != pool:
         rr = _STATE["rr"] = Renderer(random.Random(0), pool)
         _STATE["pool"] = pool
         observe.quiet_logging()
     rr.rnd = random.Random(seed * 1000003 + rid)
+    if first is not None:
+        text1, _, l1, l2 = rr.text(first[0], first[1])
+        text, spec, l1, l2 = rr.text(entry, lines, l1, l2)
+        row, at = observe_row(rid, entry, text, spec, l1, fl, (first[0], text1))
+        return row, {"kind": kind, "entry": entry, "text": text, "l1": l1, "l2": l2, "at": at, "first": [first[0], text1]}
     text, spec, l1, l2 = rr.text(entry, lines)
     row, at = observe_row(rid, entry, text, spec, l1, fl)
-    return row, {"kind": kind, "entry": entry, "text": text, "l1": l1, "l2": l2, "at": at}
+    return row, {"kind": kind, "entry": entry, "text": text, "l1": l1, "l2": l2, "at": at, "first": None}
 
 
 def run_jobs(jobs, procs):
@@ -207,6 +237,10 @@ def run(chk):
         entry = rnd.choice(["feature"] * 6 + ["rule", "scenario", "steps", "steps", "tags"])
         add("soup", entry, soup(rnd, alphabet, bases if entry == "feature" else [b for e, b in frags if e == entry]))
 
+    # (4) two parses on ONE Parser object (behave re-uses feature.parser for context.execute_steps): the second one is judged
+    for first, (entry, lines) in reuse_pairs(cases, by_code, rnd, 3000 if quick else 40000):
+        jobs.append((len(jobs) + 1, "reuse", entry, lines, 0, chk.seed, pool, first))
+
     done = run_jobs(jobs, min(WORKERS, 8))
     rows = [d[0] for d in done]
     meta = {d[0]["id"]: d[1] for d in done}
@@ -215,6 +249,7 @@ def run(chk):
     chk.evaluations = len(rows)
     byid = {row["id"]: row for row in rows}
     faults, div, div_enum = {}, 0, 0
+    diverged = set()
     for m, c, res in chk.tlc_runs:
         if m != "GherkinParser_Trace":
             continue
@@ -222,6 +257,7 @@ def run(chk):
             faults[t[2]] = faults.get(t[2], 0) + 1
         for t in res.by_tag("DIV"):
             div += 1
+            diverged.add(t[1])
             if meta[t[1]]["kind"] == "enum":
                 div_enum += 1
             if div <= 3:
@@ -233,13 +269,18 @@ def run(chk):
         if True:
             m = meta[i]
             row = byid[i]
-            chk.violation(v[2], sig_of(v, row, m["at"]),
-                          "entry=%s language=%s text=%s observed=%s" % (m["entry"], m["l1"], json.dumps(m["text"]), json.dumps(row["obs"])),
-                          {"row": row, "meta": {k: m[k] for k in ("kind", "entry", "text", "l1", "l2")}})
+            sig = sig_of(v, row, m["at"])
+            if m["kind"] == "reuse" and i in diverged:       # a fresh parser behaves differently: the earlier parse leaked
+                sig += "|reused-parser"
+            chk.violation(v[2], sig,
+                          "entry=%s language=%s text=%s observed=%s%s" % (m["entry"], m["l1"], json.dumps(m["text"]), json.dumps(row["obs"]),
+                                                                          " after %s on the same Parser object: %s" % (m["first"][0], json.dumps(m["first"][1])) if m["first"] else ""),
+                          {"row": row, "meta": {k: m[k] for k in ("kind", "entry", "text", "l1", "l2", "first")}})
     for row in rows[:1] + rows[n_enum // 2:n_enum // 2 + 1] + rows[-1:]:
         chk.sample({"entry": row["entry"], "text": meta[row["id"]]["text"], "language": meta[row["id"]]["l1"], "observed": row["obs"]})
     chk.rule = ("every line-class sequence of length <= MaxLen over the alphabet from 5 entry points (TLC, exhaustive, pruned below "
-                "error prefixes), each rendered once; + single-line mutations and fault injections of well-formed documents; + soups")
+                "error prefixes), each rendered once; + single-line mutations and fault injections of well-formed documents; + soups; "
+                "+ pairs of parses on one Parser object (second one judged)")
     chk.extra["distinct_nontrivial"] = len({(m["entry"], m["text"]) for m in meta.values()})
     chk.extra["enumerated_sequences"] = n_enum
     chk.extra["enumerated_prediction_mismatches"] = div_enum
@@ -268,12 +309,14 @@ def replay(chk, payload):
     observe.quiet_logging()
     row = payload["replay"]["row"]
     m = payload["replay"]["meta"]
-    new, at = observe_row(1, m["entry"], m["text"], row["lines"], m["l1"], row.get("fl", 0))
+    first = m.get("first")
+    new, at = observe_row(1, m["entry"], m["text"], row["lines"], m["l1"], row.get("fl", 0), tuple(first) if first else None)
     verdicts = trace.judge_rows(chk, "GherkinParser_Trace", [new], chunks=1)
     chk.impl_traces = 1
+    div = any(res.by_tag("DIV") for mname, c, res in chk.tlc_runs if mname == "GherkinParser_Trace")
     for vs in verdicts.values():
         for v in vs:
             if v[0] == "VERDICT":
-                chk.violation(v[2], sig_of(v, new, at), "replayed entry=%s text=%s observed=%s" % (m["entry"], json.dumps(m["text"]), json.dumps(new["obs"])),
+                chk.violation(v[2], sig_of(v, new, at) + ("|reused-parser" if first and div else ""), "replayed entry=%s text=%s observed=%s" % (m["entry"], json.dumps(m["text"]), json.dumps(new["obs"])),
                               {"row": new, "meta": m})
     chk.sample({"replayed": m, "observed": new["obs"]})
